@@ -422,6 +422,20 @@ func cmdC0203(seed uint64, tier, outdir string) {
 			doCase(bc, input{fmt.Sprintf("near-threshold(%v,k=%d):%s", thr, k, d.name), []byte(strings.Join(out, " "))})
 		}
 	}
+	// several matches whose confidences differ by less than a percentage point: the order must still be by confidence
+	for k := 0; k < 10+n/10; k++ {
+		var parts []string
+		var names []string
+		for j := 0; j < 2+r.intn(2); j++ {
+			d := all[r.intn(len(all))]
+			for tries := 0; tries < 30 && (len(d.text) < 3000 || len(d.text) > 12000); tries++ {
+				d = all[r.intn(len(all))]
+			}
+			parts = append(parts, string(editWords(r, d.text, 1+r.intn(4))))
+			names = append(names, d.name)
+		}
+		doCase(full, input{"close-confidences:" + strings.Join(names, "+"), []byte(strings.Join(parts, "\n"+oovBlock(r, 4, 1)+"\n"))})
+	}
 	// dictionaries larger than the ranges in which token ids change representation (55296 = first UTF-16
 	// surrogate: the ids travel through go-diff as runes; 65536 = 16 bits): two fresh 30-word documents K and O
 	// interned after that many filler words, inputs = K with one or two words replaced by words of O
